@@ -289,7 +289,7 @@ pub fn spec_for(id: &str) -> Option<Spec> {
                 thorough_cases: 1_000_000,
                 ops_quick: (60, 260),
                 ops_thorough: (60, 500),
-                repro_options: Some(crate::world::NO_F3_EXCLUSION),
+                repro_options: None,
             }
         }
         "C10" => {
